@@ -123,7 +123,24 @@ def x_sequence(ctx, case):
     return True
 
 
-SUBCHECKS = {"expr": x_expr, "sequence": x_sequence}
+def x_exc_nontuple(ctx, case):
+    """MatchesException applied to something that is not an exc_info tuple (the exception instance itself,
+    None, a list of three, text): never a match - alone, negated, annotated, or as one branch of MatchesAny."""
+    from testtools import matchers as M
+    E = env()
+    m = G.build(case["expr"], E)
+    value = {"instance": ValueError("x"), "none": None, "text": "ValueError", "int": 3,
+             "list3": [ValueError, ValueError("x"), None], "class": ValueError}[case["value"]]
+    wrapped = {"plain": m, "annotate": M.Annotate("note", m), "any": M.MatchesAny(m, M.Never()),
+               "all": M.MatchesAll(M.Always(), m), "not-not": M.Not(M.Not(m))}[case["wrap"]]
+    got = verdict(wrapped, value)
+    ctx.check(got[0] is False, "verdict==documented-predicate",
+              lambda: {"expr": case["expr"], "wrapped": case["wrap"], "value (not an exc_info tuple)": repr(value),
+                       "verdict": got[0], "want": False})
+    return True
+
+
+SUBCHECKS = {"expr": x_expr, "sequence": x_sequence, "exc_nontuple": x_exc_nontuple}
 
 DOMS = ["int", "str", "bytes", "list", "lstr", "dict", "obj", "exc", "call", "warncall", "path"]
 
@@ -249,6 +266,16 @@ def run(ctx):
                     e = ["TarballContains", paths, "iter"]
                     ctx.execute("sequence", {"expr": ["Not", e] if wrap else e, "values": [["path", v] for v in values]})
     ctx.note_space("one TarballContains over an iterator of paths matched 3-4 times: 4 path lists x 3 orders x 2", n)
+    n = 0
+    for leaf in G.leaves("exc"):
+        if leaf[0] != "MatchesException":
+            continue
+        for value in ("instance", "none", "text", "int", "list3", "class"):
+            for wrap in ("plain", "annotate", "any", "all", "not-not"):
+                if ctx.mine():
+                    n += 1
+                    ctx.execute("exc_nontuple", {"expr": leaf, "value": value, "wrap": wrap})
+    ctx.note_space("every MatchesException leaf x 6 values that are not exc_info tuples x 5 wrappings", n)
     ctx.notes["random_cases"] = True
     for i in range(ctx.scale(80000, 3000000)):
         if ctx.out_of_time():
